@@ -300,3 +300,52 @@ KITCHEN = [
     '"dd" directive @dir("ad" a: Int = 1 @d, b: String = """x\ny""") on FIELD | OBJECT',
     'directive @nd on | QUERY',
 ]
+
+
+# ---- documents with repeated, structurally equal members in one child list ----
+# (adjacent and non-adjacent). With locations erased such members are equal
+# under Node.__eq__, so an edit that finds its target by equality instead of by
+# position lands on the wrong sibling.
+def _seq(rng, pool, lo=3, hi=5):
+    n = rng.randint(lo, hi)
+    items = [rng.choice(pool) for _ in range(n)]
+    if len(set(items)) == len(items):      # force a duplicate, non-adjacent when possible
+        items[-1] = items[0]
+    return items
+
+
+DUP_KINDS = {
+    "selections": lambda r: "{ %s }" % " ".join(_seq(r, ["a", "b", "c { d }", "...F", "... on T { e }"])),
+    "nested-selections": lambda r: "{ x { %s } }" % " ".join(_seq(r, ["a", "b(k: 1)", "a"])),
+    "arguments": lambda r: "{ f(%s) }" % ", ".join(_seq(r, ["x: 1", "y: 2", "x: [1]"])),
+    "list-values": lambda r: "{ f(x: [%s]) }" % ", ".join(_seq(r, ["1", "2", "$v", "[1]", "\"s\""])),
+    "object-fields": lambda r: "{ f(x: {%s}) }" % ", ".join(_seq(r, ["a: 1", "b: 2", "a: {c: 1}"])),
+    "field-directives": lambda r: "{ f %s }" % " ".join(_seq(r, ["@d", "@e", "@d(x: 1)"])),
+    "directive-arguments": lambda r: "{ f @d(%s) }" % ", ".join(_seq(r, ["x: 1", "y: 2"])),
+    "operation-directives": lambda r: "query Q %s { f }" % " ".join(_seq(r, ["@d", "@e"])),
+    "variable-definitions": lambda r: "query (%s) { f }" % ", ".join(_seq(r, ["$a: Int", "$b: Int = 1", "$a: [Int]"])),
+    "definitions": lambda r: " ".join(_seq(r, ["{ a }", "{ b }", "scalar S", "fragment F on T { a }"])),
+    "spread-directives": lambda r: "{ ...F %s }" % " ".join(_seq(r, ["@d", "@e"])),
+    "inline-directives": lambda r: "{ ... %s { a } }" % " ".join(_seq(r, ["@d", "@e"])),
+    "enum-values": lambda r: "enum E { %s }" % " ".join(_seq(r, ["A", "B", "A @d"])),
+    "union-members": lambda r: "union U = %s" % " | ".join(_seq(r, ["A", "B", "C"])),
+    "interfaces": lambda r: "type T implements %s { a: Int }" % " & ".join(_seq(r, ["I", "J"])),
+    "field-definitions": lambda r: "type T { %s }" % " ".join(_seq(r, ["a: Int", "b: Int", "a(x: Int): Int"])),
+    "interface-fields": lambda r: "interface I { %s }" % " ".join(_seq(r, ["a: Int", "b: [Int!]"])),
+    "argument-definitions": lambda r: "type T { f(%s): Int }" % ", ".join(_seq(r, ["x: Int", "y: Int = 1", "x: Int"])),
+    "input-fields": lambda r: "input I { %s }" % " ".join(_seq(r, ["a: Int", "b: Int = 2"])),
+    "directive-definition-arguments": lambda r: "directive @d(%s) on FIELD" % ", ".join(_seq(r, ["x: Int", "y: Int"])),
+    "operation-types": lambda r: "schema { %s }" % " ".join(_seq(r, ["query: Q", "mutation: M"])),
+    "type-directives": lambda r: "scalar S %s" % " ".join(_seq(r, ["@d", "@e(x: 1)"])),
+    "extension-directives": lambda r: "extend type T %s" % " ".join(_seq(r, ["@d", "@e"])),
+    "enum-value-directives": lambda r: "enum E { A %s }" % " ".join(_seq(r, ["@d", "@e"])),
+}
+
+# the two witnesses named for the in-place list edit
+DUP_WITNESSES = ["{ a b a }", "{ f(x: [1, 2, 1]) }", "{ a a b a }", "{ f(x: 1, y: 2, x: 1) @d @e @d }",
+                 "enum E { A B A } union U = A | B | A type T { a: Int b: Int a: Int }"]
+
+
+def gen_dup_document(rng, kind=None):
+    kind = kind or rng.choice(sorted(DUP_KINDS))
+    return DUP_KINDS[kind](rng)
